@@ -286,35 +286,24 @@ Module OM.
     end.
 
   (* ---- observer automaton ----
-     per POM: events, then at most one close observation, nothing afterwards;
-     Close returns nil; once the first Close has returned every POM has been released, so from then on
-     no POM produces events other than what is still buffered (at most ecap) and each reports closed.
-     The automaton tracks: per POM closed-seen flag and number of events seen after the first Close
-     returned; call state. *)
-  Record os := { q_seen : list bool; q_after : list nat; q_call : nat (* 0 idle, 1 in call *); q_returned : bool }.
-  Definition oinit (n : nat) : os := {| q_seen := repeat false n; q_after := repeat 0 n; q_call := 0; q_returned := false |}.
+     per POM: error events, then at most one close observation, nothing afterwards; Close calls and returns
+     alternate and Close returns nil. *)
+  Record os := { q_seen : list bool; q_call : bool }.
+  Definition oinit (n : nat) : os := {| q_seen := repeat false n; q_call := false |}.
 
-  Definition ostep (c : cfg) (q : os) (o : obs) : option os :=
+  Definition ostep (q : os) (o : obs) : option os :=
     match o with
-    | OCall 0 => if q_call q =? 0 then Some {| q_seen := q_seen q; q_after := q_after q; q_call := 1; q_returned := q_returned q |} else None
-    | ORet 0 0 => if q_call q =? 1 then Some {| q_seen := q_seen q; q_after := q_after q; q_call := 0; q_returned := true |} else None
-    | OEv i =>
-      match nth_error (q_seen q) i, nth_error (q_after q) i with
-      | Some false, Some k =>
-        if q_returned q then
-          if k <? ecap c then Some {| q_seen := q_seen q; q_after := upd_nth i S (q_after q); q_call := q_call q; q_returned := true |}
-          else None
-        else Some q
-      | _, _ => None
-      end
+    | OCall 0 => if q_call q then None else Some {| q_seen := q_seen q; q_call := true |}
+    | ORet 0 0 => if q_call q then Some {| q_seen := q_seen q; q_call := false |} else None
+    | OEv i => match nth_error (q_seen q) i with Some false => Some q | _ => None end
     | OClosed i =>
       match nth_error (q_seen q) i with
-      | Some false => Some {| q_seen := upd_nth i (fun _ => true) (q_seen q); q_after := q_after q; q_call := q_call q; q_returned := q_returned q |}
+      | Some false => Some {| q_seen := upd_nth i (fun _ => true) (q_seen q); q_call := q_call q |}
       | _ => None
       end
     | _ => None
     end.
-  Definition accepts (c : cfg) (l : list obs) : bool := oaccepts (ostep c) (oinit (npom c)) l.
+  Definition accepts (c : cfg) (l : list obs) : bool := oaccepts ostep (oinit (npom c)) l.
 
   Definition closing (s : st) : Prop := once s = true.
   Definition final (s : st) : Prop :=
